@@ -177,10 +177,10 @@ struct Sweep {
       return made.back();
    }
    void exprs_unary(); void exprs_binary(); void exprs_other();
-   void stmts(); void directives(); void types_and_names(); void decls_and_regions(); void forms(); void attributes_captures_units();
+   void stmts(); void directives(); void types_and_names(); void decls_and_regions(); void forms(); void attributes_captures_units(); void unified_neighbours();
    void run_all()
    {
-      exprs_unary(); exprs_binary(); exprs_other(); stmts(); directives(); types_and_names(); decls_and_regions(); forms(); attributes_captures_units();
+      exprs_unary(); exprs_binary(); exprs_other(); stmts(); directives(); types_and_names(); decls_and_regions(); forms(); attributes_captures_units(); unified_neighbours();
    }
    // run the shadow of one artifact; returns failures through Ck
    static void run_check(const Made& m, Ck& ck)
